@@ -200,12 +200,15 @@ CLAIMED = {
              "and of the quadratic ramp (R−r)₊² (fundamental theorem of calculus), hence every entry of the Daun degree-1 and degree-2 "
              "bases (all i, j) equals the Abel integral of its hat function / quadratic B-spline; the integrals ∫(r/ρ)ⁿ dz along a line of "
              "sight (closed forms for n ≤ 3, reduction formula for all n), hence every entry p_{R;n}(r), 1 ≤ r ≤ R, of rBasex's radial "
-             "basis projections — as _bs_rbasex computes it, for every angular order — equals 2∫ b_R(ρ)(r/ρ)ⁿ dz. Tie: Lean matrices "
-             "(onionW, twoPointD, threePointD, daun0-2, the _bs_rbasex model) vs the implementation's arrays entrywise. Oracle: scipy quadrature of the defining integrals "
+             "basis projections — as _bs_rbasex computes it, for every angular order — equals 2∫ b_R(ρ)(r/ρ)ⁿ dz; Daun degree 3: the coded "
+             "antiderivative of a cubic piece, p(j)[i] and q(j)[i] = Abel integrals of the cubic Hermite value / derivative functions (all i, j), "
+             "the Thomas algorithm solves the (1, 4, 1) slope system, and the assembled matrix applied to any samples is, at every pixel and "
+             "every size, the Abel integral of the clamped cubic spline through them. Tie: Lean matrices "
+             "(onionW, twoPointD, threePointD, daun0-3, the _bs_rbasex model) vs the implementation's arrays entrywise. Oracle: scipy quadrature of the defining integrals "
              "for daun 0-3 (degree 3 via the clamped cubic Hermite spline), basex χ_k/ρ_k for several σ, rbasex p_{R;n}, and the "
              "inverse-Abel integrals of the two-/three-point local interpolants; onion D·W = 1.",
-        note="Partial: theorem-backed families are daun degrees 0-2, onion-peeling W and rbasex; daun 3, basex and two/three-point are quadrature-backed "
-             "(1e-9) at special and random indices. Trusted: Lean kernel + standard axioms; scipy.integrate.quad; the reading of "
+        note="Partial: theorem-backed families are daun degrees 0-3, onion-peeling W and rbasex; basex and two/three-point are quadrature-backed "
+             "(1e-9) at special and random indices; scipy's solve_banded in daun degree 3 is modelled by the Thomas algorithm. Trusted: Lean kernel + standard axioms; scipy.integrate.quad; the reading of "
              "each basis function from the documentation; rbasex P[n][0,0]=1 (n>0) is a documented convention, not an integral.",
         technique="Lean 4 proof (Lebesgue integral of indicators, FTC for the ramp, real square-root/log algebra) + entrywise differential check + quadrature oracle",
         design="§3 C09"),
@@ -216,7 +219,8 @@ CLAIMED = {
              "recursion C, Horner sum of a(k), the differences (y r^p)| and ln(r+y)|) is the Abel integral of Polynomial.func for every "
              "degree, piece, shift, stretch and sample inside r_max (reduction formula of ∫ r^k dy by the fundamental theorem of calculus); every "
              "SPolynomial term r^m cos^n θ on [r_min, r_max) — the coded antiderivatives F(k, lim) for all integer k = n − m, closed forms, "
-             "upward and downward recursion — is projected exactly (two-sided reduction formula of ∫(r/ρ)^k dz, k ∈ ℤ). Tie: Polynomial.func vs the Lean "
+             "upward and downward recursion — is projected exactly (two-sided reduction formula of ∫(r/ρ)^k dz, k ∈ ℤ), including the value "
+             "the code adds on the axis (r = 0). Tie: Polynomial.func vs the Lean "
              "transform; Polynomial.abel and single-term SPolynomial.abel vs the Lean models; Angular products/cossin vs the model. Oracle: func and abel of random pieces vs the polynomial and vs "
              "scipy line-of-sight quadrature (relative to term size), piecewise sums, scalar ops, copies, SPolynomial on 2-D grids, "
              "Angular algebra, Legendre series, B-spline conversion, ApproxGaussian tolerances.",
@@ -227,13 +231,13 @@ CLAIMED = {
     "C11": dict(
         text="Lean 4 theorems over the reals: StepAnalytical's and GaussianAnalytical's `abel` is the Abel integral of their `func` "
              "as functions of x, for every r1 < r2, A0, sigma (Mathlib measure theory: the shell lemma and the Gaussian integral); "
-             "linear scaling of Abel pairs; TransformPair profiles 1, 2, 3, 5, 7: the coded projection expression (each branch, with its "
+             "linear scaling of Abel pairs; TransformPair profiles 1, 2, 3, 4, 5, 7: the coded projection expression (each branch, with its "
              "square roots and logarithms) equals 2∫ source(√(x²+z²)) dz for every 0 < x < 1, as corollaries of the polynomial-piece "
              "theorem of C10. Tie: the classes' arrays vs the closed forms the theorems mention, on random grids "
              "(symmetric or not, odd/even n), and the Lean profile expressions evaluated in Float vs transform_pairs.profile<k> / "
              "TransformPair. Oracle: scipy line-of-sight quadrature of func vs abel for every shipped pair — "
              "Step, Gaussian, Polynomial wrappers, TransformPair profiles 1-7, SampleImage names x sizes x options.",
-        note="Partial: profiles 4 (rounded published coefficients) and 6 (not polynomial) and the sample images are decided by "
+        note="Partial: profile 6 (not polynomial) and the sample images are decided by "
              "quadrature, not by theorem. Trusted: Lean kernel + standard axioms; scipy quad as the independent integrator.",
         technique="Lean 4 proof (Mathlib interval/set integrals) + differential correspondence + quadrature oracle",
         design="§3 C11"),
